@@ -387,6 +387,13 @@ class PrettyPrinter:
             # e.g. an empty dict created by reading a missing key of a DefaultOrderedDict
             raise ValueError(f"The property {attr} has an empty dictionary as a value")
 
+        if isinstance(value, dict):
+            # blocks have a __type__ and key/value blocks are handled by keyword, so a
+            # dictionary that ends up here cannot be written as Mapfile text
+            raise ValueError(
+                f"The property {attr} has a dictionary without a __type__ as a value"
+            )
+
         if "allOf" in attr_props and len(attr_props["allOf"]) == 1:
             # a single schema wrapped in allOf so that version metadata can be added next to it
             attr_props = attr_props["allOf"][0]
